@@ -45,7 +45,10 @@ def convert_grid_1d(
 
     if is_native == store_native:
         if is_native:
-            return grid_1d * np.invert(np.array(mask_1d))
+            # zero by assignment, not by a product with the inverted mask (inf * 0 = NaN at a masked pixel)
+            grid_1d = np.array(grid_1d)
+            grid_1d[np.array(mask_1d, dtype="bool")] = 0
+            return grid_1d
         return grid_1d
     elif not store_native:
         return grid_1d_slim_from(
